@@ -49,6 +49,17 @@ CHECKS = {
             'nothing of an ended transport is listed anywhere, final '
             'structural snapshot equals a freshly built server, reachable '
             'object graph does not grow across generations.'),
+    'C16': ('DESIGN 4/C16',
+            'Seeded search over histories of save_session / get_session / '
+            'session() blocks (directly and through class-based namespace '
+            'helpers) interleaved with namespace DISCONNECTs, '
+            'server.disconnect, transport loss, re-CONNECT on the same '
+            'transport and reconnect on a new one, for 2-4 wire peers on 1-3 '
+            'namespaces, both servers; oracle = model sessions[(sid, ns)]; a '
+            'shadow model of the known defect (session keyed by transport + '
+            'namespace surviving a namespace re-connect) classifies that one '
+            'history pattern as KNOWN-FINDING, everything else is a '
+            'VIOLATION.'),
     'C20': ('DESIGN 4/C20',
             'Seeded search over thread interleavings (uniform random and PCT '
             'd=1..3) of 2-3 concurrent terminating actions on one sid of the '
